@@ -337,6 +337,66 @@ def twin_point(case):
             'counters': {'queries': nq}}
 
 
+def interleave_point(case):
+    """EVERY sequence of three questions (asset, instant) to ONE freshly loaded data source holding two assets with
+    different calendars - the questions go back and forth in time and between the assets in every possible way -
+    each answer compared with the point-in-time reference.  An answer must not depend on what was asked before."""
+    d = scratch_dir('qsc06i-')
+    fails, nq, nseq = [], 0, 0
+    try:
+        names = ['XXX', 'YYY']
+        rows = {}
+        for nm, idx in zip(names, case['calendars']):
+            dates = [WINDOW[i] for i in idx]
+            base = build_rows(dates, [(1, 1)] * len(dates))
+            shift = 100.0 * names.index(nm)
+            rows[nm] = [(dd, o + shift, c + shift, 0.5 * (c + shift)) for dd, o, c, a in base]
+            market.write_csv(d, nm, rows[nm])
+        refs = {nm: reference(rows[nm], case['adjust']) for nm in rows}
+        days = [WINDOW[0] - ONE] + list(WINDOW)
+        instants = [datetime.datetime(x.year, x.month, x.day, h, m, tzinfo=datetime.timezone.utc)
+                    for x in days for (h, m) in case['times']]
+        alphabet = [(nm, t) for nm in names for t in instants]
+        want = {(nm, t): ref_lookup(refs[nm], t) for nm, t in alphabet}
+        first = alphabet[case['first']]
+        for q2 in alphabet:
+            for q3 in alphabet:
+                with warnings.catch_warnings():
+                    warnings.simplefilter('ignore')
+                    src = market.load_source(d, None, case['adjust'])
+                nseq += 1
+                for k, (nm, t) in enumerate((first, q2, q3)):
+                    ts = pd.Timestamp(t)
+                    nq += 1
+                    got = [src.get_bid(ts, 'EQ:' + nm), src.get_ask(ts, 'EQ:' + nm)]
+                    if not all(same(want[(nm, t)], g) for g in got):
+                        fails.append({'clause': 'C06.depends_on_earlier_questions', 'case': dict(case, kind='interleave'),
+                                      'detail': {'questions': [[a, str(u)] for a, u in (first, q2, q3)][:k + 1],
+                                                 'expected': want[(nm, t)], 'got': [float(g) for g in got],
+                                                 'calendars': case['calendars']}})
+                        break
+                market.clear_caches()
+                if fails:
+                    break
+            if fails:
+                break
+    except Exception as e:  # noqa
+        fails.append({'clause': 'C06.load_error', 'detail': {'error': repr(e)}, 'case': dict(case, kind='interleave')})
+    finally:
+        market.clear_caches()
+        shutil.rmtree(d, ignore_errors=True)
+    return {'viols': fails, 'execs': nseq, 'evals': nq, 'nontrivial': True,
+            'outcome': ('interleave', repr(sorted(case.items()))), 'counters': {'queries': nq, 'question_sequences': nseq}}
+
+
+def interleave_items(tier):
+    times = [[15, 0]] if tier == 'quick' else [[14, 30], [21, 0]]
+    cals = [([0, 1, 3, 4], [1, 2, 4])] if tier == 'quick' else [([0, 1, 3, 4], [1, 2, 4]), ([1, 3], [0, 2, 3, 4])]
+    n = 2 * 6 * len(times)
+    return [{'calendars': [list(x) for x in c], 'adjust': adj, 'times': times, 'first': k}
+            for c in cals for adj in (False, True) for k in range(n)]
+
+
 def twin_items():
     cals = [([0, 1, 3, 4], [0, 2, 3, 4]), ([0, 1, 4], [0, 3, 4]), ([0, 1, 2, 4], [0, 1, 3, 4], [0, 2, 3, 4]), ([0, 2, 4], [0, 1, 4])]
     return [{'calendars': [list(x) for x in c], 'adjust': adj, 'reverse': rev} for c in cals for adj in (False, True)
@@ -419,6 +479,8 @@ def run(tier, res, is_known):
     product(point, its, res, is_known, label='datasets', sample_every=811, chunk=8)
     product(two_source_point, two_items(), res, is_known, label='two sources / two assets')
     product(twin_point, twin_items(), res, is_known, label='assets whose files differ only in the days in between')
+    product(interleave_point, interleave_items(tier), res, is_known,
+            label='every sequence of three questions (two assets, back and forth in time) to one source')
     product(point, wide_items(), res, is_known, label='files spanning decades', chunk=2)
     product(point, big_items(tier), res, is_known, label='files of thousands of rows', chunk=1, sample_every=10 ** 9)
     res.transitions = res.extra.get('queries', res.transitions)
@@ -428,6 +490,8 @@ def replay(case):
     if case.get('kind') == 'two':
         c = {k: v for k, v in case.items() if k != 'kind'}
         return two_source_point(c)['viols']
+    if case.get('kind') == 'interleave':
+        return interleave_point({k: v for k, v in case.items() if k != 'kind'})['viols']
     if case.get('kind') == 'twin':
         return twin_point({k: v for k, v in case.items() if k != 'kind'})['viols']
     return point(case)['viols']
